@@ -36,6 +36,7 @@ import asyncio
 import itertools as it
 import json
 import multiprocessing as mp
+import sys
 import random
 import warnings
 
@@ -420,7 +421,16 @@ def events_to_moves(events, in_ops, tab, pam):
         if e[0] == 'emit':
             _, gate, ploc, params, pi = e
             if pam and isinstance(gate, BarrierPlaceholder):
-                j = find(gate, params, ploc)     # PAM appends at the logical location
+                # PAM barrier branch: appended at [pi[q] for q in location] (fix 9e5a524).
+                # Should the barrier sit at its LOGICAL location (the former defect) the same
+                # move is sent: the model then emits it at the physical location and the
+                # comparison of the emitted circuits shows the difference.
+                try:
+                    j = find(gate, params, [pi.index(x) for x in ploc])
+                except ValueError:
+                    j = None
+                if j is None:
+                    j = find(gate, params, ploc)
                 moves.append(f'b {j if j is not None else 99999}')
                 if j is not None:
                     rem.pop(j)
@@ -758,19 +768,49 @@ def run_case(spec):
     return res
 
 
+class CaseTimeout(BaseException):
+    pass
+
+
+CASE_TIMEOUT_S = 25
+LOCK_WAIT_S = 900      # wait for the machine-wide bqskit runtime lock (/work/RUNTIME_LOCK.md)
+
+
 def _run_chunk(specs):
     out = []
+    import signal
+
+    def on_alarm(signum, frame):
+        raise CaseTimeout()
+    old = signal.signal(signal.SIGALRM, on_alarm)
+    timeouts = 0
     for s in specs:
+        if timeouts >= 2:      # the tree under test hangs: do not wait for every case
+            out.append({'spec': s, 'skipped': 'earlier cases of this chunk timed out',
+                        'viol': [], 'lines': [], 'expect': [], 'stats': {}})
+            continue
         try:
+            signal.alarm(CASE_TIMEOUT_S)
             if s.get('pam'):
                 from harness.c09_pam import run_pam_case
                 out.append(run_pam_case(s))
             else:
                 out.append(run_case(s))
+            signal.alarm(0)
+        except CaseTimeout:
+            timeouts += 1
+            out.append({'spec': s, 'viol': [(
+                'mapping-pass-does-not-terminate',
+                f'a mapping pass did not finish within {CASE_TIMEOUT_S} s on a small case '
+                '(cases of this size take well under a second)', {'spec': s}, True)],
+                'lines': [], 'expect': [], 'stats': {}, 'raised': ('timeout', '', '')})
         except Exception as e:        # harness trouble: report, never hide
             import traceback
+            signal.alarm(0)
             out.append({'spec': s, 'crash': traceback.format_exc()[-1500:],
                         'viol': [], 'lines': [], 'expect': [], 'stats': {}})
+    signal.alarm(0)
+    signal.signal(signal.SIGALRM, old)
     return out
 
 
@@ -1010,7 +1050,7 @@ def run(ck: Check):
     bg = None
     if serial:      # these start their own bqskit runtime; run them beside the pool
         q = ctx.Queue()
-        bg = ctx.Process(target=_bg_chunk, args=(serial, q, 600 if thorough else 45))
+        bg = ctx.Process(target=_bg_chunk, args=(serial, q, LOCK_WAIT_S))
         bg.start()
     if len(par) <= 4:
         results = _run_chunk(par)
@@ -1020,7 +1060,7 @@ def run(ck: Check):
     ck.coverage['phase_s']['pool'] = round(time.time() - t0, 1)
     if bg is not None:
         try:
-            results += q.get(timeout=(600 if thorough else 45) + 200 + 70 * len(serial))
+            results += q.get(timeout=LOCK_WAIT_S + 200 + 70 * len(serial))
         except Exception:
             results += [{'spec': sp, 'skipped': 'bqskit runtime case timed out', 'viol': [],
                          'lines': [], 'expect': [], 'stats': {}} for sp in serial]
@@ -1057,7 +1097,8 @@ def run(ck: Check):
             ck.bump('moves', {'x': 'exec', 's': 'swap', 'u': 'unswap(backtrack)',
                               'b': 'pam-barrier', 'p': 'pam-block'}[kk], v)
         if r.get('skipped'):
-            ck.bump('skipped', r['skipped'][:60])
+            ck.bump('SKIPPED_CASES', r['skipped'][:80])
+            print(f'NOTE C09: case skipped ({r["skipped"][:100]})', file=sys.stderr)
             continue
         if spec.get('pam'):
             ck.bump('pam_cases', spec['source'])
